@@ -8,7 +8,8 @@ EXPLANATION = ("C07: (R1-R3) the range-mapping writer advances to the token's li
                "mirrored); (R4) the lookup offset is written only for a range token on its own line and added with "
                "saturating_add; (R5) the reader takes bit k of the line's bitfield for segment k; (R6) encode_byte and "
                "decode_rmi are inverse RFC 4648 tables over 6-bit little-endian groups (value-set over all 256 inputs); "
-               "(R7) panic-freedom of the writer, reader and lookup.")
+               "(R7) panic-freedom of the writer, reader and lookup."
+               " (R8) the index delegation keeps the section-relative position the range offset is computed from.")
 NOT_DECIDED = "the value-level equality 'flag set after a round trip = flag set before' for all maps."
 
 
